@@ -42,7 +42,7 @@ func init() {
 		Gen: func(tier string, seed int64) []ev.Case {
 			n := 300
 			if tier == "thorough" {
-				n = 10000
+				n = 3000
 			}
 			var cs []ev.Case
 			for i := 0; i < n; i++ {
